@@ -1,0 +1,14 @@
+//go:build verif
+
+package step_invariant
+
+import "github.com/thanos-community/promql-engine/execution/model"
+
+// VerifChildren exposes the child slot of the step-invariant operator to the
+// verification harness (build tag verif only).
+func VerifChildren(op model.VectorOperator) []*model.VectorOperator {
+	if o, ok := op.(*stepInvariantOperator); ok {
+		return []*model.VectorOperator{&o.next}
+	}
+	return nil
+}
